@@ -50,6 +50,9 @@ CHECKS = {
  "C16": ("exploration", "CLI property test in a snapshotted sandbox: generated member-name sets from a path grammar x extraction forms x output arguments, before/after filesystem snapshot as oracle",
          "`mlar extract` (built from the tree) runs inside a scratch sandbox; a recursive snapshot (path, type, size, SHA-256, link target) of everything outside the output directory, and the listing of the sandbox's parent, must be unchanged whatever the member names are ('..' chains, absolute paths into the sandbox, empty / 256-byte / unicode components, a symlink already present in the output directory); benign representable member sets must be extracted completely with exit status 0.",
          "Filesystem-imposed failures (256-byte components, NUL, prefix-related members) exclude a set from the completeness half only. Empty directories created through a pre-existing symlink of the output directory are counted, not reported (outside the statement's wording, DESIGN.md section 9).", "DESIGN.md section 4 C16"),
+ "C17": ("exploration", "CLI round-trip property test: generated file trees x layer/level/key options x create|convert|repair pipelines, every read-side command compared with the input files; negative runs with wrong / missing / superfluous keys",
+         "With the `mlar` binary built from the tree, after create and after every convert / repair stage, list, list -vv (humansize DECIMAL size and SHA-256), cat, both forms of extract and to-tar (parsed with the tar crate) must give back exactly the generated files; wrong key, no key and a key for an archive without encryption must fail with a non-zero status and no output content on all six commands.",
+         "Sizes are bounded (one ~4 MiB file per tree at most, brotli quality <= 7) to keep a pipeline under a second.", "DESIGN.md section 4 C17"),
  "C19": ("exploration", "differential property test of the mlar binary against a harness re-implementation of the README algorithm (own ChaCha20 block function, HKDF-SHA512) over generated seeds, parent key forms and path lists",
          "For generated seeds (unicode, empty, long), parent keys (unclamped / clamped X25519 DER, Ed25519 DER, PEM) and path lists (1..4, repeated, empty), the files written by `mlar keygen --seed` and `mlar keyderive` must equal the documented algorithm, be reproducible, compose path by path, and the .pub file must match the private file.",
          "Open finding keyderive-ikm-not-clamped is reported as KNOWN-FINDING and only suppresses outputs that equal the unclamped-IKM variant for parents not in clamped form. Trusts sha2, hkdf, x25519-dalek as primitives.", "DESIGN.md section 4 C19"),
